@@ -68,7 +68,9 @@ def model_line(c):
     if t == 'track': return '\t'.join(['track', o('method'), o('tob'), b('no_commit'), b('force')] + c['targets'])
     if t == 'carryin': return '\t'.join(['carryin', o('tob'), b('force')] + c['targets'])
     if t == 'recheck': return '\t'.join(['recheck', o('method'), b('force')] + c['targets'])
-    if t == 'remove': return '\t'.join(['remove', b('all_versions'), b('force')] + c['targets'])
+    if t == 'remove':
+        sel = f"only:{c['only_version'][0]}:{c['only_version'][1]}" if c.get('only_version') else b('all_versions')
+        return '\t'.join(['remove', sel, b('force')] + c['targets'])
     if t == 'untrack':
         if c.get('restore_versions'):
             bl = c.get('block') or []
@@ -105,6 +107,7 @@ def xvc_args(c):
     if t == 'remove':
         a = ['file', 'remove', '--from-cache']
         if c.get('all_versions'): a.append('--all-versions')
+        if c.get('only_version'): a += ['--only-version', c.get('_only_hex', 'ffffffffffff')]
         if c.get('force'): a.append('--force')
         return a + c['targets']
     if t == 'untrack':
@@ -279,6 +282,12 @@ class Runner:
                             os.makedirs(os.path.join(rdir, restore_name(p, rel)), exist_ok=True)
                         except OSError:
                             pass              # e.g. ENAMETOOLONG: the copy fails for the same reason
+        if c['op'] == 'remove' and c.get('only_version') and pre is not None:
+            # --only-version takes a prefix of the version's digest: the k-th recorded version of the named path
+            # (an index out of range gives a prefix that designates nothing)
+            bp, bk = c['only_version']
+            hist = pre.recs.get(bp, {}).get('hist', [])
+            c['_only_hex'] = ''.join(f'{x:02x}' for x in hist[bk]['digest'])[:12] if bk < len(hist) else 'ffffffffffff'
         if c['op'] == 'write':
             sb.write(c['path'], c['bytes']); return 0, '', ''
         if c['op'] == 'delete':
@@ -489,7 +498,11 @@ def gen_history(rng, profile='main', maxlen=12):
         elif r < 0.74:
             h.append({'op': 'recheck', 'targets': ts, 'method': optm, 'force': rng.random() < 0.25, 'no_parallel': rng.random() < 0.5})
         elif r < 0.80:
-            h.append({'op': 'remove', 'targets': ts[:2], 'all_versions': rng.random() < 0.4, 'force': rng.random() < 0.15})
+            c = {'op': 'remove', 'targets': ts[:2], 'all_versions': rng.random() < 0.4, 'force': rng.random() < 0.15}
+            if rng.random() < 0.3:
+                c['all_versions'] = False
+                c['only_version'] = [rng.choice(ts[:2]), rng.choice([0, 0, 1, 2])]
+            h.append(c)
         elif r < 0.85:
             tt = [t for t in ts if t in tracked][:2]
             if tt:
